@@ -44,6 +44,15 @@ func init() {
 		Gen: func(seed uint64, tier string) any {
 			r := NewRand(seed)
 			p := C07Plan{Repo: GenRepoSpec(r.Sub("repo"), 14, 600)}
+			if r.Chance(0.006) {
+				// rows of two 40000-byte cells: a full block decodes to 20 MB (the 64 KiB limit is per cell, not per row)
+				p.Repo.Base = SynthSpec{N: Pick(r, []int{255, 256, 300}), NCols: 3, Seed: r.Uint64(), Wide: 40000}
+				p.Repo.Variants = [][]Edit{{{Op: "setcell", Row: 0, Col: 1, Val: "edited"}}}
+				for i := range p.Repo.TableOf {
+					p.Repo.TableOf[i] %= 2
+				}
+				p.Repo.AltPK = nil
+			}
 			n := p.Repo.Graph.N()
 			for k := r.Range(0, 2); k > 0; k-- {
 				p.Have = append(p.Have, r.Intn(n))
